@@ -237,6 +237,17 @@ def gate_for(F, fn, defs, b, vals):
     t = fn.term(b)
     l = op_local(t["op"])
     if l is None:
+        # `match (a, b) { (true, false) => .. }`: the switch reads a field of a tuple that was built from locals right before - the
+        # decision is a decision on that local
+        pl = t["op"].get("cp") or t["op"].get("mv") if isinstance(t.get("op"), dict) else None
+        if pl and len(pl["p"]) == 1 and isinstance(pl["p"][0], dict) and "f" in pl["p"][0] and "adt" not in pl["p"][0]:
+            dd = defs.whole_defs(pl["l"])
+            if len(dd) == 1 and dd[0][2] == "assign" and dd[0][3]["rv"].get("k") == "agg" and dd[0][3]["rv"].get("agg") == "tuple":
+                ops_ = dd[0][3]["rv"].get("ops") or []
+                i_ = pl["p"][0]["f"]
+                if isinstance(i_, int) and i_ < len(ops_):
+                    l = op_local(ops_[i_])
+    if l is None:
         return None
     g = {"bb": b, "ln": t["ln"], "callee": None, "enum": None}
     o = defs.origin(l)
